@@ -1,5 +1,7 @@
 package an
 
+import "strings"
+
 func init() {
 	Registry["C01"] = runC01
 	Registry["C05"] = runC05
@@ -23,6 +25,10 @@ func runC01(w *World) *Result {
 	OpTableRule(w, bash, r, "R-C01-optable")
 	AllocRule(w, bash, r, "R-C01-alloc")
 	ExitRule(w, bash, batch, r, "R-C01-exit")
+	r.Rule("R-C01-lower", "for / if lowering follows the protocol (init, ForStart, guarded increment, condition, ForCondition, body, ForEnd; all conditions before IfStart)", 2)
+	ProtoRule(w, r, "R-C01-lower", func(n string) bool { return n == "For" || n == "If" || n == "Block" })
+	r.Rule("R-C01-dispatch", "every constructed node kind has its handler", 25)
+	DispatchRule(w, r, "R-C01-dispatch")
 	return r
 }
 
@@ -79,6 +85,8 @@ func runC02(w *World) *Result {
 	r.NotDecided = "actual isolation at run time when user names collide with the mangling scheme (C10); values through nested calls."
 	r.Rule("R-C02-mangle", "helper stored and read under the same (mangled) name within one converter method", 30)
 	r.Rule("R-C02-reg", "return/argument registers: writer and reader agree on stem and index; reads follow the call line", 5)
+	r.Rule("R-C02-store", "multi-target assignment: all right-hand sides are evaluated (and snapshotted) before the first store", 1)
+	c02Store(w, r)
 	r.Rule("R-C02-ident", "statements referring to existing variables carry the looked-up definition; lookups find file-prefixed globals from any scope", 6)
 	IdentRule(w, r, "R-C02-ident")
 	for _, role := range []string{"bash", "batch"} {
@@ -91,4 +99,37 @@ func runC02(w *World) *Result {
 		RegisterRule(w, b, r, "R-C02-reg")
 	}
 	return r
+}
+
+// c02Store: a, b = b, a must use the old values: every evaluation precedes the first store.
+func c02Store(w *World, r *Result) {
+	rule := "R-C02-store"
+	df, err := BuildDriverFacts(w)
+	if err != nil {
+		r.Bad(rule, "store:driver", "-", err.Error())
+		return
+	}
+	for _, d := range df.Fns {
+		if d.Node != "VariableAssignment" {
+			continue
+		}
+		bad := ""
+		for _, t := range d.Traces {
+			seenStore := false
+			for _, e := range t {
+				if strings.HasPrefix(e, "conv(Var") {
+					seenStore = true
+				}
+				if strings.HasPrefix(e, "eval(") && seenStore {
+					bad = strings.Join(t, " ")
+				}
+			}
+		}
+		key := "store:multi-assignment"
+		if bad != "" {
+			r.Bad(rule, key, w.Pos(d.Fn.Pos()), "the driver evaluates and stores target by target ("+bad+"): in 'a, b = b, a' the second right-hand side already sees the new value of a (prints 2 2 instead of 2 1)")
+		} else {
+			r.Ok(rule, key, w.Pos(d.Fn.Pos()), "all right-hand sides are evaluated before the first store")
+		}
+	}
 }
